@@ -2,7 +2,7 @@
     appendix B): a case is a flat list of naturals; the result is a list of
     lines of naturals. The parser is Gallina so that the extracted run and the
     in-Coq [vm_compute] run share it. *)
-From MB Require Import Model.Framework Model.Validate Model.Thresholds Model.FFI.
+From MB Require Import Model.Framework Model.Validate Model.Thresholds Model.FFI Model.Sim.
 From MB Require Model.Codec.Base64 Model.Codec.Bincode.
 Open Scope N_scope.
 
@@ -267,8 +267,42 @@ Definition run_ffi (l : list N) : list (list N) :=
   | _ => [[99]]
   end.
 
+(** simulator case *)
+Definition TIME_BIAS : Z := 1000000000000000.
+
+Definition pcfg_std : parser cfg :=
+  pf <~ pnum ;; bf <~ pnum ;; ms <~ plist pmachine ;; pret (mkcfg ms pf bf stdclock).
+
+Definition pqev : parser (Z * bool) := t <~ pnum ;; c <~ pbool ;; pret ((Z.of_N t - TIME_BIAS)%Z, c).
+
+Definition out_sev (e : sev) : list N :=
+  let '(k, m) := match se_ev e with
+                 | TENormalRecv => (0, 0) | TEPaddingRecv => (1, 0) | TETunnelRecv => (2, 0)
+                 | TENormalSent => (3, 0) | TEPaddingSent m => (4, m) | TETunnelSent => (5, 0)
+                 | TEBlockingBegin m => (6, m) | TEBlockingEnd => (7, 0)
+                 | TETimerBegin m => (8, m) | TETimerEnd m => (9, m)
+                 end in
+  [Z.to_N (se_time e + TIME_BIAS); N_of_bool (se_client e); k; m; N_of_bool (se_pad e);
+   N_of_bool (se_bypass e); N_of_bool (se_replace e)].
+
+Definition run_sim (l : list N) : list (list N) :=
+  match (cc <~ pcfg_std ;; sc <~ pcfg_std ;; delay <~ pnum ;; pps <~ popt pnum ;; qpps <~ popt pnum ;;
+         mt <~ pnum ;; mi <~ pnum ;; cont <~ pbool ;; oc <~ pbool ;; on <~ pbool ;;
+         q <~ plist pqev ;; tp <~ plist pnum ;;
+         pret (cc, sc, delay, pps, qpps, mksimargs mt mi cont oc on, q, tp)) l with
+  | Some ((cc, sc, delay, pps, qpps, args, q, tp), []) =>
+      let sq := fold_left (fun sq '(t, c) => sq_push sq (mksev TENormalSent t c false false false)) q
+                          (mksimq evq_empty evq_empty qpps) in
+      match sim_advanced (N.to_nat 6000) cc sc (tape_of_list tp) sq delay pps args with
+      | Ok tr => [0; N.of_nat (length tr)] :: map out_sev tr
+      | o => [out_fail o]
+      end
+  | _ => [[99]]
+  end.
+
 (** entry point: tag 1 = framework case, 2 = validation case, 3 = sampling
-    case, 4 = transition-vector case, 5-8 = codec cases, 9 = FFI case *)
+    case, 4 = transition-vector case, 5-8 = codec cases, 9 = FFI case,
+    10 = simulator case *)
 Definition run_wire (l : list N) : list (list N) :=
   match l with
   | 1 :: rest =>
@@ -284,5 +318,6 @@ Definition run_wire (l : list N) : list (list N) :=
   | 7 :: rest => run_b64dec rest
   | 8 :: rest => run_de rest
   | 9 :: rest => run_ffi rest
+  | 10 :: rest => run_sim rest
   | _ => [[98]]
   end.
